@@ -25,6 +25,7 @@ impl<T: Decode> Decode for Option<T> {
     }
     open spec fn dec_bytes(v: &Self) -> Seq<u8> { match v { None => seq![0u8], Some(t) => seq![1u8] + T::dec_bytes(t) } }
     open spec fn need_depth(b: Seq<u8>) -> nat { if b.len() > 0 && b[0] == 1 { T::need_depth(b.skip(1)) } else { 0 } }
+    proof fn law_bound(b: Seq<u8>) { if b.len() > 0 && b[0] == 1 { T::law_bound(b.skip(1)); } }
     //@fn option.decode :: codec | impl<T:Decode>Decode for Option<T> | decode
     //@ at before `match input.read_byte()`
     //@+ proof { assert(forall|s: Seq<u8>| s.len() >= 1 ==> s =~= #[trigger] (seq![s[0]] + s.skip(1))); }
@@ -55,6 +56,7 @@ impl<T: Decode, E: Decode> Decode for Result<T, E> {
     open spec fn need_depth(b: Seq<u8>) -> nat {
         if b.len() > 0 && b[0] == 0 { T::need_depth(b.skip(1)) } else if b.len() > 0 && b[0] == 1 { E::need_depth(b.skip(1)) } else { 0 }
     }
+    proof fn law_bound(b: Seq<u8>) { if b.len() > 0 && b[0] == 0 { T::law_bound(b.skip(1)); } if b.len() > 0 && b[0] == 1 { E::law_bound(b.skip(1)); } }
     //@fn result.decode :: codec | impl<T:Decode,E:Decode>Decode for Result<T,E> | decode
     //@ at before `match input.read_byte()`
     //@+ proof { assert(forall|s: Seq<u8>| s.len() >= 1 ==> s =~= #[trigger] (seq![s[0]] + s.skip(1))); }
@@ -77,6 +79,7 @@ impl Decode for OptionBool {
     open spec fn accepts(b: Seq<u8>) -> Option<nat> { if b.len() >= 1 && b[0] <= 2 { Some(1nat) } else { None } }
     open spec fn dec_bytes(v: &Self) -> Seq<u8> { match v.0 { None => seq![0u8], Some(true) => seq![1u8], Some(false) => seq![2u8] } }
     open spec fn need_depth(b: Seq<u8>) -> nat { 0 }
+    proof fn law_bound(b: Seq<u8>) {}
     //@fn optionbool.decode :: codec | impl Decode for OptionBool | decode
     //@ at before `match input.read_byte()`
     //@+ proof { assert(forall|s: Seq<u8>| s.len() >= 1 ==> s =~= #[trigger] (seq![s[0]] + s.skip(1))); }
@@ -100,6 +103,7 @@ impl Decode for () {
     open spec fn accepts(b: Seq<u8>) -> Option<nat> { Some(0nat) }
     open spec fn dec_bytes(v: &Self) -> Seq<u8> { Seq::<u8>::empty() }
     open spec fn need_depth(b: Seq<u8>) -> nat { 0 }
+    proof fn law_bound(b: Seq<u8>) {}
     //@fn unit.decode :: codec | impl Decode for () | decode
     //@ sub `_: &mut I` `_input: &mut I` R2
     //@ at start
@@ -116,6 +120,7 @@ impl<T> Decode for PhantomData<T> {
     open spec fn accepts(b: Seq<u8>) -> Option<nat> { Some(0nat) }
     open spec fn dec_bytes(v: &Self) -> Seq<u8> { Seq::<u8>::empty() }
     open spec fn need_depth(b: Seq<u8>) -> nat { 0 }
+    proof fn law_bound(b: Seq<u8>) {}
     //@fn phantom.decode :: codec | impl<T>Decode for PhantomData<T> | decode
     //@ at start
     //@+ proof { broadcast use sl::concat_empty_l; }
@@ -141,6 +146,7 @@ impl Decode for $NZ {
     open spec fn accepts(b: Seq<u8>) -> Option<nat> { if b.len() >= $N && b.take($N) != le(0, $N) { Some($Nnat) } else { None } }
     open spec fn dec_bytes(v: &Self) -> Seq<u8> { le($VAL(v.get()), $N) }
     open spec fn need_depth(b: Seq<u8>) -> nat { 0 }
+    proof fn law_bound(b: Seq<u8>) {}
     //@fn nonzero.$T.decode :: codec | impl Decode for $NZ | decode
 $SUBNZ    //@ at start
     //@+ proof {
@@ -197,6 +203,11 @@ def tuple_template(k):
             return cur
         nxt = nd(i + 1, (off + ' + n%d' % i) if off != '0nat' else 'n%d' % i)
         return 'match %s::accepts(%s) { None => %s, Some(n%d) => max_nat(%s, %s) }' % (L[i], sk(off), cur, i, cur, nxt)
+    def lw(i, off):
+        if i == k:
+            return ''
+        return '%s::law_bound(%s); match %s::accepts(%s) { None => {}, Some(n%d) => { %s } }' % (L[i], sk(off), L[i], sk(off), i, lw(i + 1, (off + ' + n%d' % i) if off != '0nat' else 'n%d' % i))
+    law = lw(0, '0nat')
     mod = 'tuple_%d' % k
     out = ['pub mod %s {' % mod, 'use super::*;', 'broadcast use auto::psc_min;',
            '//@module %s props=C01,C02,C03,C07,C08,C11,C14' % mod]
@@ -224,6 +235,7 @@ def tuple_template(k):
             '    open spec fn accepts(b: Seq<u8>) -> Option<nat> { %s }' % acc(0, '0nat'),
             '    open spec fn dec_bytes(v: &Self) -> Seq<u8> { %s }' % dec_spec,
             '    open spec fn need_depth(b: Seq<u8>) -> nat { %s }' % nd(0, '0nat'),
+            '    proof fn law_bound(b: Seq<u8>) { %s }' % law,
             '    //@fn tuple%d.decode :: codec::inner_tuple_impl | %s | decode' % (k, dec_hdr)]
     if k > 1:
         out += ['    //@ subre `\\bINPUT\\b` `I` R2', '    //@ sub `super::Error` `Error` R10']
